@@ -146,6 +146,13 @@ def concLine (st : ConcRun) (lineNo : Nat) (line : String) : Except String (Conc
               s!"PROPFAIL C04 disk_readable line={lineNo} seed={(get "seed").take 120} final={(get "final").take 120}",
               s!"PROPFAIL C14 final_state_readable line={lineNo} final={(get "final").take 120}"])
       else .error s!"line {lineNo}: cannot parse conc line"
+  | "stuck" :: rest =>
+    -- the harness made no progress for a minute and a half: a call into the code under test has
+    -- not returned and never will.  No statement admits a call that is never answered.
+    let fs := fields rest
+    let note := ((lookup fs "note").bind unhexStr).getD ""
+    let what := s!"line={lineNo} a call did not return (the run was stopped by the watchdog): {note.take 1500}"
+    .ok ({ st with fails := st.fails + 6 }, [s!"PROPFAIL C14 every_call_returns {what}", s!"PROPFAIL C09 four_outcomes {what}", s!"PROPFAIL C06 call_returns {what}", s!"PROPFAIL C01 result_is_specified {what}", s!"PROPFAIL C02 call_returns {what}", s!"PROPFAIL C03 call_returns {what}"])
   | _ => if line.startsWith "#" || line.isEmpty then .ok (st, []) else .error s!"line {lineNo}: unknown line kind"
 
 end Setec.Driver
